@@ -146,7 +146,7 @@ fn sanitize_for_lines(t: &mut XTree) {
 // ---------------------------------------------------------------------------------------------
 // generators
 
-const FRAG_TEXT: &[&str] = &["Z", "new text", "a b", "x&amp;y", "&lt;tag&gt;", "1", " ", "\u{e9}t\u{e9}", "", "it's", "say &quot;hi&quot;", "q\"q", "2 &gt; 1", "]]&gt;", "a\tb", "l1\nl2"];
+const FRAG_TEXT: &[&str] = &["Z", "new text", "a b", "x&amp;y", "&lt;tag&gt;", "1", " ", "\u{e9}t\u{e9}", "", "it's", "say &quot;hi&quot;", "q\"q", "2 &gt; 1", "]]&gt;", "a\tb", "l1\nl2", "Tom's \"best\"", "'&quot;'"];
 const FRAG_MARKUP: &[&str] = &[
     "<n/>", "<n k=\"v\">t</n>", "<i><j/>t</i>", "<!--c-->", "<![CDATA[<raw>&]]>", "<a id=\"1\"/>", "<b>b<b>bb</b></b>", "<n k=\"a&amp;b\" m='x'/>", "<![CDATA[]]>", "<n>&lt;</n>",
     "<div k=\"1\"><div/></div>", "<!---->",
